@@ -207,6 +207,31 @@ def e2e(rep, tier, seed):
             meta.append((pid, "aligned", 0, [(a, b)], its))
         cases.append({"text": text, "config": [], "again": False, "lex": False})
         meta.append((pid, "unrestricted", 0, None, its))
+    # statements of a selected function: select one statement, the others must be emitted line for line
+    STMTS = ["let  a%d=1 ;", "call%d( x,y ) ;", "if  a%d {\nb( ) ;\n}", "match x%d {\n1=>2 ,\n_=>3 ,\n}", "let v%d = vec![ 1,2 ,3 ] ;", "// note %d\nlet  z = ( 1 ) ;",
+             "for i%d in 0 .. 3 {\nwork( i ) ;\n}", "let s%d = S{a:1,b:2} ;", "x%d . y( ) . z( ) ;", "unsafe  { p%d( ) }", "let c%d = | q | q+1 ;"]
+    stmt_meta = {}
+    for si in range(nsyn):
+        lines, spans = ["fn  outer%d( ) {" % si], []
+        for k in range(rs.randint(3, 6)):
+            st = rs.choice(STMTS) % k
+            ind = " " * rs.choice([0, 2, 4, 4, 7])
+            start = len(lines) + 1
+            for l in st.split("\n"):
+                lines.append(ind + l)
+            spans.append((start, len(lines)))
+            if rs.random() < 0.3:
+                lines.append("")
+        lines.append("}")
+        lines.append("fn  other( ) { }")
+        text = "\n".join(lines) + "\n"
+        pid = "synthstmt/%d" % si
+        stmt_meta[pid] = (lines, spans)
+        for (a, b) in spans:
+            cases.append({"text": text, "config": [fl([(a, b)])], "again": False, "lex": False})
+            meta.append((pid, "stmt", 0, [(a, b)], []))
+        cases.append({"text": text, "config": [], "again": False, "lex": False})
+        meta.append((pid, "unrestricted", 0, None, []))
     res = common.run_vh_pool("pool", cases, per_case_timeout=15)
     found = n = 0
     by = {}
@@ -224,6 +249,25 @@ def e2e(rep, tier, seed):
             n += 1
             out = r["out"]
             base = {"pool_id": pid, "selection": R, "variant": vi, "config": c["config"], "input": text, "out": out}
+            if name == "stmt":
+                lines, spans = stmt_meta[pid]
+                olines = out.split("\n")
+                for (a, b) in spans:
+                    if (a, b) == tuple(R[0]):
+                        continue
+                    want = lines[a - 1:b]
+                    # the statement's own bytes: from its first token (the indentation before it is not part of it)
+                    ok = "\n".join(want).lstrip() in out
+                    if not ok:
+                        if rep.violation("e2e_unselected_statement_changed", dict(base, statement_lines=[a, b], statement=want),
+                                         "an unselected statement (lines %d-%d) of the selected function of %s is not emitted byte for byte under selection %r: %r" % (a, b, pid, R, want)):
+                            found += 1
+                        break
+                # the last line (fn other) is an unselected item
+                if lines[-1] not in olines:
+                    if rep.violation("e2e_unselected_item_changed:%s" % pid, base, "the unselected item after the selected function of %s was changed" % pid):
+                        found += 1
+                continue
             if name in ("none", "empty_range", "past_end") and vi == 0:
                 if out.rstrip("\n") != text.replace("\r\n", "\n").rstrip("\n") and out.rstrip("\n") != text.rstrip("\n"):
                     if rep.violation("e2e_empty_selection:%s" % pid, base, "a selection that selects no line of the file (%s %r) changed the text of %s" % (name, R, pid)):
@@ -254,7 +298,59 @@ def e2e(rep, tier, seed):
                         found += 1
                     break
     rep.coverage["e2e_runs_judged"] = n
-    rep.coverage["e2e_rule"] = "pool source programs (thorough: all; quick: the 1/%d selected by the seed) x selections {one item exactly, a random window cutting through items, an empty range, a range past the end, no range, every line} and for the first two, two equivalent re-spellings (adjacent / overlapping pieces, an extra empty range, permuted): unselected top-level items byte for byte; empty selections change nothing; full selection = unrestricted; equal unions give equal text" % MOD
+    found += binary_selection(rep, tier, seed)
+    rep.coverage["e2e_rule"] = "pool source programs (thorough: all; quick: the 1/%d selected by the seed) x selections {one item exactly, a random window cutting through items, an empty range, a range past the end, no range, every line} and for the first two, two equivalent re-spellings (adjacent / overlapping pieces, an extra empty range, permuted): unselected top-level items byte for byte; synthetic functions of 3..6 badly formatted statements with one statement selected: every other statement line for line; through the binary: the same selection given for a path and for stdin gives the same text, and a file not named in the selection is not written; empty selections change nothing; full selection = unrestricted; equal unions give equal text" % MOD
+    return found
+
+
+def binary_selection(rep, tier, seed):
+    """path vs stdin spelling of the same selection, and files not named in the selection, through the real binary"""
+    import json as _j
+    import os
+    import random
+    import shutil
+    ok, blog, _ = common.build_bins()
+    if not ok:
+        raise RuntimeError("build of /repo binaries failed:\n" + blog)
+    env = common.rust_env()
+    env.pop("CARGO_TARGET_DIR", None)
+    d = os.path.join(common.CACHE, "c17bin")
+    rs = random.Random("c17-bin-%d" % seed)
+    found = n = 0
+    for k in range(12 if tier != "thorough" else 80):
+        shutil.rmtree(d, ignore_errors=True)
+        os.makedirs(d)
+        items = ["fn  a%d( ) { }" % k, "struct  S  {a:u8}", "fn  b( x:u8 )->u8{x}", "const C :u8=1;", "fn  c( ) {\n  let y=2 ;\n}"]
+        rs.shuffle(items)
+        text = "mod m;\n" + "\n".join(items) + "\n"
+        open(os.path.join(d, "lib.rs"), "w").write(text)
+        mtext = "pub fn  inner( ){ }\n"
+        open(os.path.join(d, "m.rs"), "w").write(mtext)
+        nl = text.count("\n")
+        a = rs.randint(1, nl)
+        b = min(nl, a + rs.randint(0, 2))
+        full = os.path.join(os.path.realpath(d), "lib.rs")
+        for spelled in ("lib.rs", full):
+            sel_path = _j.dumps([{"file": spelled, "range": [a, b]}])
+            rc1, o1, e1 = common.sh([common.bin_path("rustfmt"), "--unstable-features", "--file-lines", sel_path, "--emit", "stdout", "-q", spelled], cwd=d, env=env, timeout=60)
+            sel_stdin = _j.dumps([{"file": "stdin", "range": [a, b]}])
+            rc2, o2, e2 = common.sh([common.bin_path("rustfmt"), "--unstable-features", "--file-lines", sel_stdin], cwd=d, env=env, timeout=60, input=text)
+            n += 1
+            # the path run prints lib.rs (and m.rs unchanged, if at all); compare the lib.rs part with the stdin output
+            if o2 and o2 not in o1:
+                if rep.violation("e2e_path_vs_stdin", {"text": text, "range": [a, b], "file_spelling": spelled, "path_out": o1, "stdin_out": o2, "stderr": (e1 + e2)[-300:]},
+                                 "lines %d-%d selected for the path %r and for stdin give different texts" % (a, b, spelled)):
+                    found += 1
+            # in place: a file not named in the selection is not rewritten
+            rc3, o3, e3 = common.sh([common.bin_path("rustfmt"), "--unstable-features", "--file-lines", sel_path, spelled], cwd=d, env=env, timeout=60)
+            if open(os.path.join(d, "m.rs")).read() != mtext:
+                if rep.violation("e2e_unnamed_file_written", {"text": text, "range": [a, b], "file_spelling": spelled},
+                                 "m.rs is not named in the selection %s but was rewritten" % sel_path):
+                    found += 1
+            open(os.path.join(d, "lib.rs"), "w").write(text)
+            open(os.path.join(d, "m.rs"), "w").write(mtext)
+    shutil.rmtree(d, ignore_errors=True)
+    rep.coverage["binary_selection_runs"] = n
     return found
 
 
